@@ -482,7 +482,14 @@ def moveClauses (b a : Diagram) (x : Path) (destParent : Path) (withDesc : Bool)
   | none => [⟨"move-source-missing", false⟩]
   | some xo =>
     match objByLabel a xo.label with
-    | none => [⟨"move-lost-moved-object", false⟩]
+    | none =>
+      -- the moved object is gone: the clauses that need no destination are still evaluated
+      [ ⟨"move-lost-moved-object", false⟩,
+        ⟨"move-lost-object", b.objs.all fun o => samePath o.path x || (objByLabel a o.label).isSome⟩,
+        ⟨"move-lost-edge", b.edges.all fun e => (edgeByLabel a e.label).isSome⟩,
+        ⟨"move-changed-attrs", b.objs.all fun o => (objByLabel a o.label).all fun o' => o.sameContent o'⟩,
+        ⟨"move-changed-edge-attrs", b.edges.all fun e => (edgeByLabel a e.label).all fun e' => e.sameContent e'⟩,
+        ⟨"move-new-edge", a.edges.all fun e => (edgeByLabel b e.label).isSome⟩ ]
     | some xo' =>
       let n := xo'.path
       let ren := observedRen b a x
